@@ -396,3 +396,84 @@ Lemma ids_preserved s f : open_doc s = Opened f -> map rid (flatten f) = map rid
 Proof.
   intro O. apply open_wn in O. destruct (WN_sound _ _ O) as [_ E]. now rewrite E.
 Qed.
+
+(* ------------------------------------------------------------------ the dispatch looks at the SET of deciding keys only
+   (TaggedBlocks is an ordered dict: the order of a record's blocks, repetitions in the abstract list, and
+   blocks with other keys must not matter) *)
+From Coq Require Import Permutation.
+
+Definition KIND_TAGS : list Z := TYPE_TAGS ++ SMART_TAGS ++ TABLE_TAGS ++ VECTOR_TAGS.
+Definition set_tags (r : rec) (ts : list Z) : rec := mkRec (rid r) (sec r) (nsec r) (pdi r) ts.
+
+Lemma has_any_ext_in r r' ts :
+  (forall t, In t ts -> has t r = has t r') -> has_any ts r = has_any ts r'.
+Proof.
+  unfold has_any. induction ts as [|x ts IH]; intro H; [reflexivity|]. cbn [existsb].
+  rewrite (H x (or_introl eq_refl)). f_equal. apply IH. intros t Ht. apply H. now right.
+Qed.
+
+Lemma find_has_ext_in r r' ts :
+  (forall t, In t ts -> has t r = has t r') -> find (fun t => has t r) ts = find (fun t => has t r') ts.
+Proof.
+  induction ts as [|x ts IH]; intro H; [reflexivity|]. cbn [find].
+  rewrite (H x (or_introl eq_refl)). destruct (has x r'); [reflexivity|]. apply IH. intros t Ht. apply H. now right.
+Qed.
+
+Lemma classify_depends_on_deciding r r' :
+  (forall t, In t KIND_TAGS -> has t r = has t r') -> pdi r = pdi r' -> classify r = classify r'.
+Proof.
+  intros H P. unfold KIND_TAGS in H.
+  assert (has_any TYPE_TAGS r = has_any TYPE_TAGS r') as E1
+    by (apply has_any_ext_in; intros; apply H; apply in_or_app; now left).
+  assert (has_any SMART_TAGS r = has_any SMART_TAGS r') as E2
+    by (apply has_any_ext_in; intros; apply H; apply in_or_app; right; apply in_or_app; now left).
+  assert (first_table r = first_table r') as E3
+    by (apply find_has_ext_in; intros; apply H; apply in_or_app; right; apply in_or_app; right; apply in_or_app; now left).
+  assert (has_any VECTOR_TAGS r = has_any VECTOR_TAGS r') as E4
+    by (apply has_any_ext_in; intros; apply H; apply in_or_app; right; apply in_or_app; right; apply in_or_app; now right).
+  unfold classify, shape_cond. now rewrite E1, E2, E3, E4, P.
+Qed.
+
+Lemma has_in t r : has t r = true <-> In t (tags r).
+Proof.
+  unfold has. rewrite existsb_exists. split.
+  - intros [x [I E]]. apply Z.eqb_eq in E. now subst.
+  - intro I. exists t. split; [exact I|apply Z.eqb_refl].
+Qed.
+
+Lemma has_same_members r r' : (forall t, In t (tags r) <-> In t (tags r')) -> forall t, has t r = has t r'.
+Proof.
+  intros H t. destruct (has t r) eqn:A, (has t r') eqn:B; try reflexivity.
+  - apply has_in, H, has_in in A. congruence.
+  - apply has_in, H, has_in in B. congruence.
+Qed.
+
+Lemma classify_perm r r' : Permutation (tags r) (tags r') -> pdi r = pdi r' -> classify r = classify r'.
+Proof.
+  intros P E. apply classify_depends_on_deciding; [|exact E]. intros t _. apply has_same_members.
+  intro x. split; intro I; [eapply Permutation_in; eauto|eapply Permutation_in; [apply Permutation_sym|]; eauto].
+Qed.
+
+Lemma classify_ignores_other_blocks r pre t post :
+  ~ In t KIND_TAGS -> classify (set_tags r (pre ++ t :: post)) = classify (set_tags r (pre ++ post)).
+Proof.
+  intro N. apply classify_depends_on_deciding; [|reflexivity]. intros x Ix.
+  destruct (has x (set_tags r (pre ++ t :: post))) eqn:A, (has x (set_tags r (pre ++ post))) eqn:B; try reflexivity.
+  - apply has_in in A. cbn [tags set_tags] in A. apply in_app_or in A as [A|[A|A]].
+    + assert (has x (set_tags r (pre ++ post)) = true) by (apply has_in; cbn; apply in_or_app; now left). congruence.
+    + subst. contradiction.
+    + assert (has x (set_tags r (pre ++ post)) = true) by (apply has_in; cbn; apply in_or_app; now right). congruence.
+  - apply has_in in B. cbn [tags set_tags] in B. apply in_app_or in B as [B|B].
+    + assert (has x (set_tags r (pre ++ t :: post)) = true) by (apply has_in; cbn; apply in_or_app; now left). congruence.
+    + assert (has x (set_tags r (pre ++ t :: post)) = true) by (apply has_in; cbn; apply in_or_app; right; now right). congruence.
+Qed.
+
+Lemma gkind_of_perm r r' : Permutation (tags r) (tags r') -> gkind_of r = gkind_of r'.
+Proof.
+  intro P. unfold gkind_of. rewrite (has_any_ext_in r r' ARTB_TAGS); [reflexivity|].
+  intros t _. apply has_same_members. intro x.
+  split; intro I; [eapply Permutation_in; eauto|eapply Permutation_in; [apply Permutation_sym|]; eauto].
+Qed.
+
+Lemma role_of_ignores_blocks r ts : role_of (set_tags r ts) = role_of r.
+Proof. reflexivity. Qed.
